@@ -472,6 +472,7 @@ func (p *parser) advance() {
 		if !ok {
 			return
 		}
+		verifPoint(20)
 		p.current = current
 		p.stats.tokens++
 		if p.current.typ == tFAIL {
@@ -780,6 +781,7 @@ func (p *parser) error(msg string) {
 }
 
 func (p *parser) errorAt(t *token, msg string) {
+	verifPoint(21)
 	p.panicMode = true
 
 	p.log.Printf("line %s: error", p.linePos.format(t.pos))
